@@ -11,9 +11,9 @@ CONSTANTS NP,        \* number of peers
           QS,        \* request queue lengths
           ADVS,      \* sizes an "any" liar may advertise
           LENS,      \* data lengths a liar may send
-          RESTART,   \* startInfoDownloaders after a disconnect (FALSE = the code as it is)
+          MODES,     \* "asis" (the code as it is: no startInfoDownloaders after a connection loss; liars may drop),
+                     \* "asis_nodrop" (the code as it is, connections are never lost), "fixed" (repaired design, liars may drop)
           DUPOKS,    \* duplicates of a requested block accepted (TRUE = the code as it is)
-          DROPS,     \* liars may break the connection
           PRIVATES
 
 \* policy-vector families (chosen in the .cfg with  POLS <- PolsXxx)
@@ -22,13 +22,14 @@ PolsAny1   == {<<"honest", "any", "any">>}
 PolsAny2   == {<<"honest", "any">>, <<"any", "any">>}
 PolsLive   == {<<"honest", "any", "any">>, <<"any", "honest", "any">>}
 PolsLive2  == {<<"honest", "any">>}
+PolsQuick  == {<<"honest", "any">>, <<"any", "any">>, <<"drop", "honest">>}
 PolsNamed  == {<<"honest", a, b>> : a \in Policies \ {"any"}, b \in Policies \ {"any"}}
 PolsStall  == {<<"drop", "drop", "honest">>}
 
 CfgSet ==
     { [np |-> NP, bs |-> BS, tsize |-> ts, max |-> MAXSZ, par |-> pa, q |-> q, pol |-> pv, advs |-> ADVS, lens |-> LENS,
-       restart |-> RESTART, dupok |-> du, drops |-> DROPS, private |-> pr] :
-         ts \in TSIZES, pa \in PARS, q \in QS, pv \in POLS, du \in DUPOKS, pr \in PRIVATES }
+       restart |-> (mo = "fixed"), dupok |-> du, drops |-> (mo # "asis_nodrop"), private |-> pr] :
+         ts \in TSIZES, pa \in PARS, q \in QS, pv \in POLS, du \in DUPOKS, pr \in PRIVATES, mo \in MODES }
 
 MCInit == \E c \in CfgSet : InitWith(c)
 
@@ -44,7 +45,10 @@ MCSpec == MCInit /\ [][Next]_vars /\ Fair
 
 \* @obligation C13.live  with at least one honest peer (whose metadata fits the cap) the fetch eventually succeeds
 HasHonest == \E p \in 1 .. NP : cfg.pol[p] = "honest"
-Live == (HasHonest /\ cfg.tsize <= cfg.max) => <>Fetched
+\* LiveAll is what the property demands; Live excludes the configurations of the code as it is with connection losses,
+\* for which TLC finds the stall (MC_Metadata_asis.cfg checks LiveAll and is expected to fail)
+LiveAll == (HasHonest /\ cfg.tsize <= cfg.max) => <>Fetched
+Live    == (HasHonest /\ cfg.tsize <= cfg.max /\ (cfg.restart \/ ~cfg.drops)) => <>Fetched
 
 \* `asked` is a ghost, cfg never changes
 MCView == <<cfg, pst, adv, idl, snub, inflight, asked, adopted, kick>>
